@@ -1,6 +1,7 @@
 import Driver.Util
 import GrVerif.Model.Loader
 import GrVerif.Model.PassLoad
+import GrVerif.Model.ClassMap
 namespace Driver.Loader
 open GrVerif.Loader Driver
 
@@ -75,8 +76,30 @@ def stepPass (ws : List String) : String :=
     | _, _, _ => "bad-op"
   | _ => "bad-op"
 
+/-- `classmap <wide> <hex> <cid.x,…>` -/
+def stepClassMap (ws : List String) : String :=
+  match ws with
+  | [wd, h, probes] =>
+    match wd.toNat?, parseHexUnits 2 h with
+    | some wd, some b =>
+      match readClassMap b.toList (wd ≠ 0) with
+      | .error _ => "fault"
+      | .ok (.error e) => s!"E{e}"
+      | .ok (.ok m) =>
+        let ps := (probes.splitOn ",").filterMap fun p => match p.splitOn "." with
+          | [c, x] => (match c.toNat?, x.toNat? with | some c, some x => some (c, x) | _, _ => none)
+          | _ => none
+        let ps := ps.filter fun p => p.1 ≠ m.nClass
+        let show1 (r : Except Fault Nat) : String := match r with | .ok v => toString v | .error _ => "fault"
+        let g := String.intercalate "," (ps.map fun p => show1 (getClassGlyph m p.1 p.2))
+        let f := String.intercalate "," (ps.map fun p => show1 (findClassIndex m p.1 p.2))
+        s!"ok {m.nClass},{m.nLinear} O:{digest m.offsets} D:{digest m.data} G:{g} F:{f}"
+    | _, _ => "bad-op"
+  | _ => "bad-op"
+
 def step (line : String) : String :=
   match words line with
+  | "classmap" :: rest => stepClassMap rest
   | "sfnt" :: rest => stepSfnt rest
   | "ranges" :: rest => stepRanges rest
   | "pass" :: rest => stepPass rest
